@@ -629,6 +629,33 @@ def r26_13(ctx, rep):
     every_model_attempted(ctx, rep, "R26.13")
 
 
+@SPEC.rule(
+    "R26.15",
+    "every error is reported and counted for the item it belongs to: no function of the compiler tool reads a for-loop's variable after that loop has ended (the value the last iteration left behind)",
+)
+def r26_15(ctx, rep):
+    from ._literal import no_stale_loop_variables
+    no_stale_loop_variables(ctx, rep, "R26.15", CLI, "the compiler tool")
+
+
+@SPEC.rule(
+    "R26.14",
+    "a file that is not UTF-8 counts as a file with errors: parse_file opens the file with strict decoding (no errors='replace' / 'ignore' / "
+    "'surrogateescape') — a lenient decoder turns undecodable bytes in a comment into text, the file parses, and the exit status is one too low",
+)
+def r26_14(ctx, rep):
+    R = "R26.14"
+    fn = ctx.func(CLI, "parse_file", R)
+    site = CLI + ":parse_file"
+    opens = [c for c in calls(fn) if (isinstance(c.func, ast.Attribute) and c.func.attr in ("open", "read_text")) or is_name(c.func, "open")]
+    if not opens:
+        raise MechanismMissing(R, "parse_file opens no file")
+    for c in opens:
+        err = next((k.value for k in c.keywords if k.arg == "errors"), None)
+        ok = err is None or (isinstance(err, ast.Constant) and err.value in ("strict", None))
+        rep.ob(R, site, "`%s` decodes strictly" % norm(c)[:60], ok, "errors=%s hides undecodable bytes from the parser: the file is counted as good" % (norm(err) if err is not None else ""))
+
+
 # -- seeded variants ---------------------------------------------------------
 from ._mut import delete_stmt_where, replace_in_func  # noqa: E402
 
